@@ -68,6 +68,10 @@ def real_placeholder():
 
 def run(spec, R):
     lang = spec['lang']
+    # the order depccg/__main__.py uses: the printer package is imported first, the language is chosen afterwards
+    env.install()
+    env.stub_native_parsing()
+    import depccg.printer  # noqa: F401
     env.install(lang)
     formats = cli_formats().get(lang)
     if not formats or len(formats) < 5:
